@@ -43,6 +43,9 @@ def work(tier, seed):
                 continue
             items.append({"blocks": [list(x) for x in bl], "grid": kind, "scalars": False,
                           "small_easy": kind in ("float32", "mixed", "negated", "ulp", "uint"), "mutated": kind == "irregular"})
+    for n in (ot.LADDER_QUICK if tier == "quick" else ot.LADDER_THOROUGH):
+        for tf in (True, False):
+            items.append({"ladder": n, "tie_free": tf, "scalars": False, "small_easy": True})
     return items
 
 
@@ -51,4 +54,6 @@ def run(item, ctx, tier, seed):
     easy = [tuple(e) for e in b["easy"]]
     if item.get("small_easy"):  # dtype / sign variants: the square of small counts only
         easy = [e for e in easy if max(e) <= 2]
+    if "ladder" in item:
+        easy = [(0, 0), (3, 5), (0, 7), (11, 0)]
     tc.explore(item, ctx, seed, easy, {"extremes"})
